@@ -151,8 +151,11 @@ func getKeystoreFromJson(keysJson []byte) (*Keystore, error) {
 // NOTE: this func will leave the masterKeyPriv derived
 func (a *AddrManager) checkPassword(passphrase []byte) error {
 	if a.unlocked {
-		saltedPassphrase := append(a.privPassphraseSalt[:],
-			passphrase...)
+		// copy the salt: appending nothing (empty passphrase) to
+		// privPassphraseSalt[:] would alias the array and the zeroing
+		// below would wipe the salt itself
+		saltedPassphrase := append(append(make([]byte, 0, saltSize+len(passphrase)),
+			a.privPassphraseSalt[:]...), passphrase...)
 		hashedPassphrase := sha512.Sum512(saltedPassphrase)
 		zero.Bytes(saltedPassphrase)
 		if !bytes.Equal(hashedPassphrase[:], a.hashedPrivPassphrase[:]) {
@@ -179,7 +182,11 @@ func (a *AddrManager) safelyCheckPassword(privPass []byte) error {
 	if err != nil {
 		return err
 	}
-	a.masterKeyPriv.Zero()
+	// while unlocked the derived master key is part of the unlocked state
+	// (checkPassword did not derive it); it is wiped when the wallet is locked
+	if !a.unlocked {
+		a.masterKeyPriv.Zero()
+	}
 	return nil
 }
 
